@@ -27,13 +27,14 @@ type c16Case struct {
 	Rows     int      `json:"rows,omitempty"`
 	Via      string   `json:"via,omitempty"` // flush | create | create-big
 	History  []string `json:"history,omitempty"`
+	Writer   int      `json:"writer,omitempty"` // read: which writer path produced the index
 }
 
 func (c c16Case) sig() string {
 	if c.Kind == "clobber" {
 		return fmt.Sprintf("clobber existing=%s rows=%d via=%s", c.Existing, c.Rows, c.Via)
 	}
-	return "read history=" + strings.Join(c.History, ";")
+	return fmt.Sprintf("read index-written-by=%s history=%s", ix.Writer(c.Writer), strings.Join(c.History, ";"))
 }
 
 func sha(b []byte) string { h := sha256.Sum256(b); return hex.EncodeToString(h[:]) }
@@ -197,16 +198,21 @@ func c16Appears(c c16Case, dir, out string) string {
 
 var c16Queries = []*model.Expr{model.Eq("k", "1"), model.Not(model.Eq("v", "3")), model.And(model.Eq("k", "0"), model.Not(model.Eq("v", "0"))), model.Or(model.Eq("v", "1"), model.Eq("v", "nope"))}
 
-var c16Master []byte
+var c16Masters = map[ix.Writer][]byte{}
+
+// c16Writer selects which writer path produced the index that the read histories run on.
+var c16Writer = ix.MemFile
 
 // c16Read replays a read-only history on a copy of a valid index and compares the file state after every step.
 func c16Read(ctx *rt.Ctx, hist []string) (viol string, key string) {
+	c16Master := c16Masters[c16Writer]
 	if c16Master == nil {
-		p, _, err := ix.Build(ctx.Scratch, c16Rows(1200), ix.MemFile)
+		p, _, err := ix.Build(ctx.Scratch, c16Rows(1200), c16Writer)
 		if err != nil {
 			rt.Harnessf("build: %v", err)
 		}
 		c16Master, _ = os.ReadFile(p)
+		c16Masters[c16Writer] = c16Master
 		os.Remove(p)
 	}
 	c16Seq++
@@ -268,9 +274,11 @@ var c16Seq int
 
 func c16Worker(ctx *rt.Ctx, job *rt.Job) []*rt.Violation {
 	var a struct {
-		Depth int `json:"depth"`
+		Depth  int `json:"depth"`
+		Writer int `json:"writer"`
 	}
 	job.Decode(&a)
+	c16Writer = ix.Writer(a.Writer)
 	ops := []string{"open", "open-preload", "open-cache", "open-preload-cache", "q0", "q1", "q2", "q3", "schema", "close"}
 	var vs []*rt.Violation
 	// unmerged enumeration of all enabled histories to the depth; sharded by first two operations
@@ -284,7 +292,7 @@ func c16Worker(ctx *rt.Ctx, job *rt.Job) []*rt.Violation {
 			ctx.Cov.Add("evaluations", 1)
 			viol, _ := c16Read(ctx, h)
 			if viol != "" {
-				c := c16Case{Kind: "read", History: append([]string{}, h...)}
+				c := c16Case{Kind: "read", History: append([]string{}, h...), Writer: a.Writer}
 				vs = append(vs, rt.NewViolation("C16", "read", c.sig(), c, "%s", viol))
 				return false
 			}
@@ -352,14 +360,16 @@ func c16Run(ctx *rt.Ctx) []*rt.Violation {
 	if ctx.Thorough() {
 		depth = 7
 	}
-	b, _ := json.Marshal(map[string]int{"depth": depth})
 	var jobs []rt.Job
-	for s := 0; s < 16; s++ {
-		jobs = append(jobs, rt.Job{Name: "read", Shard: s, NShards: 16, Args: b})
+	for w := 0; w < 3; w++ {
+		b, _ := json.Marshal(map[string]int{"depth": depth, "writer": w})
+		for s := 0; s < 8; s++ {
+			jobs = append(jobs, rt.Job{Name: "read", Shard: s, NShards: 8, Args: b})
+		}
 	}
 	outs := rt.RunJobs(ctx, jobs, rt.SpawnOpt{})
 	vs = append(vs, rt.Collect(ctx, outs, nil)...)
-	ctx.Cov.Note("rule", fmt.Sprintf("clobber: 6 pre-existing contents (empty, valid index, arbitrary bytes, read-only index, dangling symlink, symlink to an index) x 3 writer sizes x {IndexWriter.Flush, updog create, updog create -b}: must fail and leave SHA-256/size/mode (and link target) unchanged; 'appears': for every write k of Flush another actor exclusively creates the output path at that moment - if it succeeds Flush must fail and leave that file alone; read: every enabled history up to depth %d over {4 open variants, 4 queries, GetSchema, Close} on a copy of a valid 1200-row index: SHA-256/size/mode compared after every step; non-trivial = clobber cases and read histories of length >= 3", depth))
+	ctx.Cov.Note("rule", fmt.Sprintf("clobber: 6 pre-existing contents (empty, valid index, arbitrary bytes, read-only index, dangling symlink, symlink to an index) x 3 writer sizes x {IndexWriter.Flush, updog create, updog create -b}: must fail and leave SHA-256/size/mode (and link target) unchanged; 'appears': for every write k of Flush another actor exclusively creates the output path at that moment - if it succeeds Flush must fail and leave that file alone; read: every enabled history up to depth %d over {4 open variants, 4 queries, GetSchema, Close} on copies of valid 1200-row indexes written by each of the three writer paths: SHA-256/size/mode compared after every step; non-trivial = clobber cases and read histories of length >= 3", depth))
 	return vs
 }
 
@@ -374,6 +384,7 @@ func c16Replay(ctx *rt.Ctx, v *rt.Violation) *rt.Violation {
 		}
 		return nil
 	}
+	c16Writer = ix.Writer(c.Writer)
 	if m, _ := c16Read(ctx, c.History); m != "" {
 		return rt.NewViolation("C16", "read", c.sig(), c, "%s", m)
 	}
